@@ -18,6 +18,7 @@ import (
 	"path/filepath"
 	"runtime"
 	"sort"
+	"strconv"
 	"sync"
 	"testing"
 	"time"
@@ -43,6 +44,64 @@ type tlcBehaviour struct {
 	Origin string      `json:"origin,omitempty"`
 	Seed   int64       `json:"seed,omitempty"`
 	Resets []string    `json:"resets,omitempty"` // the model variant the behaviour comes from
+}
+
+// envMap: parameters of a test body; missing keys fall back to the process environment
+type envMap map[string]string
+
+func (e envMap) get(k string) string {
+	if v, ok := e[k]; ok {
+		return v
+	}
+	return os.Getenv(k)
+}
+func (e envMap) num(k string, def int) int {
+	if v, ok := e[k]; ok {
+		if n, err := strconv.Atoi(v); err == nil {
+			return n
+		}
+		return def
+	}
+	return vfutil.EnvInt(k, def)
+}
+
+// TestAll runs the bodies named by the plan file $VERIF_PLAN (JSON list of {"test": name, "env": {...}}) in one
+// process with one report: one build, one set of keys (bin/check uses it; the single tests remain for --replay)
+func TestAll(t *testing.T) {
+	rep := vfutil.NewReport("C14")
+	defer func() { rep.Save(!t.Failed() || rep.NumViolations() > 0) }()
+	raw, err := os.ReadFile(os.Getenv("VERIF_PLAN"))
+	if err != nil {
+		t.Fatal(err)
+	}
+	var plan []struct {
+		Test string            `json:"test"`
+		Env  map[string]string `json:"env"`
+	}
+	if err := json.Unmarshal(raw, &plan); err != nil {
+		t.Fatal(err)
+	}
+	bodies := map[string]func(*testing.T, *vfutil.Report, envMap){
+		"TestReplay": replayBody, "TestRandom": randomBody, "TestConcurrent": concurrentBody, "TestReuse": reuseBody,
+		"TestProtoReplay": protoReplayBody, "TestProtoReuse": protoReuseBody,
+	}
+	for _, item := range plan {
+		b, ok := bodies[item.Test]
+		if !ok {
+			t.Fatalf("unknown body %q", item.Test)
+		}
+		before := rep.Cases
+		t0 := time.Now()
+		b(t, rep, envMap(item.Env))
+		if t.Failed() {
+			return
+		}
+		name := item.Env["VERIF_NAME"]
+		if name == "" {
+			name = item.Test
+		}
+		rep.SetExtra("part:"+name, map[string]any{"cases": rep.Cases - before, "seconds": time.Since(t0).Seconds()})
+	}
 }
 
 // crumb: what is being executed right now, for the orchestrator to report if the code under test
@@ -83,6 +142,9 @@ func sortObjs(o []objT) []string {
 func (fx *fixture) execute(rep *vfutil.Report, b tlcBehaviour, seed int64, conform bool, tw *vfutil.TraceWriter) {
 	fx.pool.absorb()
 	fx.pool.shadow = nil // the specification starts from an empty pool
+	// ... and from checkers without history: one secureservice instance per side configuration, created
+	// for this behaviour and shared by all its sessions (the checker object is long-lived)
+	fx.svcs = &svcCache{pb: fx.pb}
 	r := newRunner(fx.pb, fx.svcs, fx.pool, b.Sess, seed)
 	complete := true
 	for _, st := range b.Steps {
@@ -176,11 +238,15 @@ func caseKey(b tlcBehaviour) string {
 func TestReplay(t *testing.T) {
 	rep := vfutil.NewReport("C14")
 	defer func() { rep.Save(!t.Failed() || rep.NumViolations() > 0) }()
+	replayBody(t, rep, nil)
+}
+
+func replayBody(t *testing.T, rep *vfutil.Report, env envMap) {
 	fx := newFixture()
 	fx.pool.begin()
 	defer fx.pool.end()
 	var bs []tlcBehaviour
-	conform := os.Getenv("VERIF_MODE") != "probe"
+	conform := env.get("VERIF_MODE") != "probe"
 	if raw, ok := vfutil.ReplayFile(); ok {
 		var b tlcBehaviour
 		if err := json.Unmarshal(raw, &b); err != nil {
@@ -190,7 +256,7 @@ func TestReplay(t *testing.T) {
 		conform = false
 	} else {
 		var err error
-		dir := os.Getenv("VERIF_BEHAVIOURS")
+		dir := env.get("VERIF_BEHAVIOURS")
 		bs, err = vfutil.LoadJSONFiles[tlcBehaviour](dir)
 		if err != nil {
 			t.Fatal(err)
@@ -198,7 +264,7 @@ func TestReplay(t *testing.T) {
 		for i := range bs {
 			bs[i].Origin = filepath.Base(dir) + fmt.Sprintf("#%d", i)
 		}
-		if os.Getenv("VERIF_DEDUP") != "" {
+		if env.get("VERIF_DEDUP") != "" {
 			// one behaviour per (configuration, adversary step with its complete frame): drops interleavings
 			seen := map[string]bool{}
 			var sel []tlcBehaviour
@@ -222,7 +288,7 @@ func TestReplay(t *testing.T) {
 			}
 			bs = sel
 		}
-		if max := vfutil.EnvInt("VERIF_SAMPLE", 0); max > 0 && len(bs) > max {
+		if max := env.num("VERIF_SAMPLE", 0); max > 0 && len(bs) > max {
 			var sel []tlcBehaviour
 			for i := 0; i < max; i++ {
 				sel = append(sel, bs[i*len(bs)/max])
@@ -273,17 +339,21 @@ func randomSide(rnd interface{ Intn(int) int }, party string, honest bool) sideC
 func TestRandom(t *testing.T) {
 	rep := vfutil.NewReport("C14")
 	defer func() { rep.Save(!t.Failed() || rep.NumViolations() > 0) }()
+	randomBody(t, rep, nil)
+}
+
+func randomBody(t *testing.T, rep *vfutil.Report, env envMap) {
 	fx := newFixture()
 	fx.pool.begin()
 	defer fx.pool.end()
 	rnd := vfutil.Rand()
-	path := os.Getenv("VERIF_TRACE_OUT")
+	path := env.get("VERIF_TRACE_OUT")
 	if path == "" {
 		path = filepath.Join(t.TempDir(), "trace.ndjson")
 	}
 	tw := vfutil.NewTraceWriter(path)
 	defer tw.Close()
-	runs := vfutil.EnvInt("VERIF_RUNS", 100)
+	runs := env.num("VERIF_RUNS", 100)
 	for n := 0; n < runs; n++ {
 		ns := 1 + rnd.Intn(3)
 		var descs []sessDesc
@@ -295,6 +365,7 @@ func TestRandom(t *testing.T) {
 		crumb(map[string]any{"test": "TestRandom", "seed": vfutil.Seed(), "runs": n + 1})
 		fx.pool.absorb()
 		fx.pool.shadow = nil
+		fx.svcs = &svcCache{pb: fx.pb} // checkers without history, shared by the sessions of this run
 		r := newRunner(fx.pb, fx.svcs, fx.pool, descs, seed)
 		opt := randOpts{concurrent: rnd.Intn(2) == 0, maxFaults: rnd.Intn(3), kinds: map[string]bool{}}
 		for _, k := range []string{"replace", "inject", "stall", "kill", "cancel"} {
@@ -405,6 +476,10 @@ func (fx *fixture) runFree(descs []sessDesc, seed int64, timeout time.Duration, 
 func TestConcurrent(t *testing.T) {
 	rep := vfutil.NewReport("C14")
 	defer func() { rep.Save(!t.Failed() || rep.NumViolations() > 0) }()
+	concurrentBody(t, rep, nil)
+}
+
+func concurrentBody(t *testing.T, rep *vfutil.Report, env envMap) {
 	fx := newFixture()
 	rnd := vfutil.Rand()
 	const width = 64
@@ -413,7 +488,7 @@ func TestConcurrent(t *testing.T) {
 		fx.pb.get(fmt.Sprintf("O%d", k))
 		fx.pb.get(fmt.Sprintf("I%d", k))
 	}
-	rounds := vfutil.EnvInt("VERIF_ROUNDS", 10)
+	rounds := env.num("VERIF_ROUNDS", 10)
 	for n := 0; n < rounds; n++ {
 		var descs []sessDesc
 		for k := 0; k < width; k++ {
@@ -470,11 +545,15 @@ func TestConcurrent(t *testing.T) {
 func TestReuse(t *testing.T) {
 	rep := vfutil.NewReport("C14")
 	defer func() { rep.Save(!t.Failed() || rep.NumViolations() > 0) }()
+	reuseBody(t, rep, nil)
+}
+
+func reuseBody(t *testing.T, rep *vfutil.Report, env envMap) {
 	old := runtime.GOMAXPROCS(1)
 	defer runtime.GOMAXPROCS(old)
 	fx := newFixture()
 	rnd := vfutil.Rand()
-	attempts := vfutil.EnvInt("VERIF_ATTEMPTS", 30)
+	attempts := env.num("VERIF_ATTEMPTS", 30)
 	crumb(map[string]any{"test": "TestReuse", "seed": vfutil.Seed()})
 	first := []sessDesc{
 		{O: sideCfg{Ver: 1, Acc: []int{1}, Mode: "skip", Cver: "cvA", Pid: "pA", Id: "iA"}, I: sideCfg{Ver: 1, Acc: []int{1}, Mode: "skip", Cver: "cvB", Pid: "pB", Id: "iB"}},
